@@ -168,4 +168,4 @@ def s3(ck, an):
         ck.check(ok or (not discrete and k2 == ["float-zero"]), "KIND", "S3.null-action-member", c.name, f.loc,
                  f"{c.name}.null_action() (resolved to {f.short}) returns {k2}: accepted by the space ({why})",
                  f"{c.name}.null_action() (resolved to {f.short}) returns {ast.unparse(rets[0].value) if rets else '?'} of kind {k2}; {why}", construct=f"{c.name}.null_action -> {f.short}")
-    own_callers(ck, an, "S3.null-action-used-for-prefill", "PortfolioSpace.null_action", {"TradingEnv.reset"})
+    own_callers(ck, an, "S3.null-action-used-for-prefill", "PortfolioSpace.null_action", {"TradingEnv.reset"}, min_sites=0)   # presence of the prefill call is S1.prefill-null-actions
